@@ -11,7 +11,7 @@ from ..core.refmodels import ref_dominance, ref_ranks
 PROPERTY = "C02"
 LEVEL = "exploration"
 RULE = ("every sequence of length n over the alphabet (all input orders): quick V3^2 x {F,T} n<=4, V3 x {F,T} n<=6, "
-        "{0,1}^3 x {T} n<=5; thorough adds V5^2 x {T} n<=5 and V3^2 x {F,T} n=5. Oracle: rank by the recursive "
+        "{0,1}^3 x {T} n<=5; thorough adds V5^2 x {T} n<=5 and V3^2 x {F,T} n=5. also every permutation of the creation (id) order for n=3 (all) and n=4 over a 6-symbol alphabet. Oracle: rank by the recursive "
         "definition. distinct_nontrivial = number of distinct labelled dominance relations (verdict matrices) realised "
         "that contain at least one dominance pair; evaluations = sequences sorted.")
 ASSUMPTIONS = ["the sorter sees costs only through the comparator verdicts (C01 checks the comparator)",
@@ -28,6 +28,8 @@ def alphabet(name):
         return [(a, f) for a in V3 for f in (False, True)]
     if name == "B3":
         return [(a, b, c, True) for a in (0.0, 1.0) for b in (0.0, 1.0) for c in (0.0, 1.0)]
+    if name == "S6":
+        return [(0.0, 0.0, True), (0.0, 1.0, True), (1.0, 0.0, True), (1.0, 1.0, True), (2.0, 0.0, True), (0.0, 2.0, True)]
     if name == "V5x2":
         return [(a, b, True) for a in V5 for b in V5]
     raise ValueError(name)
@@ -43,21 +45,22 @@ def selector():
     return _sel[0]
 
 
-def sort_population(costs):
+def sort_population(costs, order=None):
+    """order: permutation giving the creation order of the list positions (ids follow creation order)."""
     from artap.individual import Individual
-    pop = []
-    for c in costs:
+    pop = [None] * len(costs)
+    for pos in (order if order is not None else range(len(costs))):
         ind = Individual([0.0])
-        ind.costs_signed = list(c)
-        pop.append(ind)
+        ind.costs_signed = list(costs[pos])
+        pop[pos] = ind
     selector().fast_nondominated_sorting(pop)
     return pop
 
 
-def check_case(costs):
+def check_case(costs, order=None):
     out = []
     try:
-        pop = sort_population(costs)
+        pop = sort_population(costs, order)
     except Exception as e:
         return [("C02:exception:%s" % type(e).__name__, "sorting %r raised %r" % (costs, e))]
     got = [p.features.get('front_number') for p in pop]
@@ -67,8 +70,8 @@ def check_case(costs):
             key = "C02:unranked"
         else:
             dup = len(set(map(tuple, costs))) < len(costs)
-            key = "C02:rank:n=%d:%s" % (len(costs), "dup" if dup else "nodup")
-        out.append((key, "costs %r: front numbers %r, definition %r" % (costs, got, exp)))
+            key = "C02:rank:n=%d:%s%s" % (len(costs), "dup" if dup else "nodup", ":ids-not-in-list-order" if order is not None else "")
+        out.append((key, "costs %r (creation order %r): front numbers %r, definition %r" % (costs, order, got, exp)))
     return out
 
 
@@ -82,6 +85,26 @@ def relation_code(costs):
 
 
 def _shard(shard, col: Collector):
+    if shard[0] == "perm":
+        # list order differs from creation (id) order: every permutation of the creation order
+        _, name, n, fixed = shard
+        alpha = alphabet(name)
+        perms = list(itertools.permutations(range(n)))[1:]
+        for rest in itertools.product(alpha, repeat=n - len(fixed)):
+            costs = list(fixed) + list(rest)
+            exp = ref_ranks(costs)
+            for order in perms:
+                col.case()
+                col.count("permuted_creation_order_cases")
+                try:
+                    got = [p.features.get('front_number') for p in sort_population(costs, order)]
+                except Exception:
+                    got = None
+                if got != exp:
+                    for k, msg in check_case(costs, order):
+                        col.violation(k, "sort", msg, {"costs": costs, "order": order})
+        col.sample({"alphabet": name, "n": n, "costs": list(fixed) + [alpha[-1]] * (n - len(fixed)), "creation_order": list(perms[-1])}, 1)
+        return
     name, n, fixed = shard
     alpha = alphabet(name)
     memo = {}
@@ -109,7 +132,7 @@ def _shard(shard, col: Collector):
 
 
 def replay(sub, case):
-    return check_case([tuple(c) for c in case["costs"]])
+    return check_case([tuple(c) for c in case["costs"]], tuple(case["order"]) if case.get("order") else None)
 
 
 def run(tier, seed):
@@ -129,7 +152,14 @@ def run(tier, seed):
     for n in (1, 2, 3, 4):
         add("B3", n, 0)
     add("B3", 5, 1)
+    for a in alphabet("V3x2F"):
+        shards.append(("perm", "V3x2F", 3, (a,)))
+    for a in alphabet("S6"):
+        shards.append(("perm", "S6", 4, (a,)))
     if tier == "thorough":
+        for a in alphabet("S6"):
+            for b in alphabet("S6"):
+                shards.append(("perm", "S6", 5, (a, b)))
         add("V5x2", 5, 2)
         add("V5x2", 4, 1)
         add("V3x2F", 5, 2)
